@@ -156,6 +156,10 @@ impl LayerGen {
     pub fn generate(&self, current_max_layer: u8) -> u8 {
         let mut r = rng();
         let val = r.sample(self.uniform).max(f64::MIN_POSITIVE);
+        #[cfg(feature = "verif")]
+        let val = crate::verif::uniform01()
+            .unwrap_or(val)
+            .max(f64::MIN_POSITIVE);
 
         // Sample l = ⌊−ln(u) · scale⌋ from an exponential distribution.
         let level = (-val.ln() * self.scale).floor() as u8;
